@@ -77,3 +77,153 @@ Qed.
 (* the pinned recogniser accepts a string outside the documented integer grammar *)
 Theorem is_integer_pinned_refuted : exists s, is_integer_pinned s = true /\ ~ integer_literal s.
 Proof. exists [43]. split; [reflexivity | apply not_integer_literal_sign]. Qed.
+
+(* ---------- the repaired recognisers against the documented literal grammars ---------- *)
+
+Lemma take_drop p l : l = takew p l ++ dropw p l.
+Proof. induction l as [|c r IH]; simpl; [reflexivity|]. destruct (p c); simpl; [f_equal; exact IH | reflexivity]. Qed.
+Lemma takew_all p l : all p (takew p l).
+Proof. unfold all. induction l as [|c r IH]; simpl; [reflexivity|]. destruct (p c) eqn:E; simpl; [rewrite E; exact IH | reflexivity]. Qed.
+Lemma all_rev p l : all p l -> all p (rev l).
+Proof.
+  unfold all. rewrite !forallb_forall. intros H x Hx. apply H. apply in_rev. exact Hx.
+Qed.
+Lemma all_app p a b : all p a -> all p b -> all p (a ++ b).
+Proof. unfold all. intros Ha Hb. rewrite forallb_app, Ha, Hb. reflexivity. Qed.
+
+(* s = leading blanks ++ trim s ++ trailing blanks *)
+Lemma trim_decomp s : exists w1 w2, s = w1 ++ trim s ++ w2 /\ all isspace w1 /\ all isspace w2.
+Proof.
+  exists (takew isspace s), (rev (takew isspace (rev (dropw isspace s)))).
+  split; [|split; [apply takew_all | apply all_rev, takew_all]].
+  unfold trim. rewrite <- rev_app_distr. rewrite <- take_drop. rewrite rev_involutive. apply take_drop.
+Qed.
+
+Lemma skip_sign_decomp t : exists sg, t = sg ++ skip_sign t /\ opt_sign sg.
+Proof.
+  destruct t as [|c r]; [exists []; split; [reflexivity | left; reflexivity]|].
+  simpl. destruct (is_sign c) eqn:E.
+  - exists [c]. split; [reflexivity|]. unfold is_sign in E. apply orb_true_iff in E. destruct E as [E|E]; apply N.eqb_eq in E; subst; [right; left | right; right]; reflexivity.
+  - exists []. split; [reflexivity | left; reflexivity].
+Qed.
+
+(* soundness: whatever IsInteger accepts is a documented integer literal *)
+Theorem is_integer_sound s : is_integer s = true -> integer_literal s.
+Proof.
+  unfold is_integer. intro H. destruct (trim_decomp s) as (w1 & w2 & E & H1 & H2).
+  destruct (trim s) as [|c t] eqn:T; [discriminate|].
+  apply andb_true_iff in H. destruct H as [Hne Hd].
+  destruct (skip_sign_decomp (c :: t)) as (sg & Es & Hs).
+  exists w1, sg, (skip_sign (c :: t)), w2. repeat split; try assumption.
+  - rewrite E. rewrite Es at 1. rewrite <- !app_assoc. reflexivity.
+  - intro Z. rewrite Z in Hne. discriminate.
+Qed.
+
+(* completeness: every documented integer literal is accepted *)
+Lemma dropw_blank_prefix w x r : all isspace w -> isspace x = false -> dropw isspace (w ++ x :: r) = x :: r.
+Proof.
+  unfold all. induction w as [|c w IH]; simpl; intros Hw Hx; [rewrite Hx; reflexivity|].
+  apply andb_true_iff in Hw. destruct Hw as [Hc Hw]. rewrite Hc. apply IH; assumption.
+Qed.
+Lemma trim_core w1 w2 x m m' y :
+  all isspace w1 -> all isspace w2 -> x :: m = m' ++ [y] ->
+  isspace x = false -> isspace y = false -> trim (w1 ++ (x :: m) ++ w2) = x :: m.
+Proof.
+  intros H1 H2 E Hx Hy. unfold trim.
+  change (w1 ++ (x :: m) ++ w2) with (w1 ++ x :: (m ++ w2)).
+  rewrite dropw_blank_prefix by assumption.
+  change (x :: m ++ w2) with ((x :: m) ++ w2). rewrite rev_app_distr. rewrite E. rewrite rev_app_distr.
+  change (rev [y] ++ rev m') with (y :: rev m').
+  rewrite (dropw_blank_prefix (rev w2) y (rev m')); [|apply all_rev; assumption | assumption].
+  change (y :: rev m') with ([y] ++ rev m'). rewrite rev_app_distr. rewrite rev_involutive. reflexivity.
+Qed.
+Lemma digit_not_space c : isdigit c = true -> isspace c = false.
+Proof.
+  unfold isdigit, isspace. intro H. apply andb_true_iff in H. destruct H as [A B].
+  apply N.leb_le in A. apply N.leb_le in B.
+  destruct (c =? 32) eqn:E; [apply N.eqb_eq in E; lia|]. simpl.
+  destruct (9 <=? c) eqn:F; [|reflexivity]. simpl. apply N.leb_gt. lia.
+Qed.
+Lemma sign_not_space c : is_sign c = true -> isspace c = false.
+Proof.
+  unfold is_sign. intro H. apply orb_true_iff in H. destruct H as [H|H]; apply N.eqb_eq in H; subst; reflexivity.
+Qed.
+Lemma last_exists {A} (l : list A) : l <> [] -> exists m y, l = m ++ [y].
+Proof. intro H. destruct (exists_last H) as (m & y & E). exists m, y. exact E. Qed.
+Lemma all_last p m y : all p (m ++ [y]) -> p y = true.
+Proof. unfold all. rewrite forallb_app. intro H. apply andb_true_iff in H. destruct H as [_ H]. simpl in H. rewrite andb_true_r in H. exact H. Qed.
+
+Theorem is_integer_complete s : integer_literal s -> is_integer s = true.
+Proof.
+  intros (w1 & sg & ds & w2 & E & H1 & H2 & Hs & Hne & Hd).
+  destruct (last_exists ds Hne) as (m & y & Ey).
+  assert (Hy : isdigit y = true) by (rewrite Ey in Hd; apply (all_last _ _ _ Hd)).
+  destruct ds as [|d0 dr]; [contradiction|].
+  assert (Hd0 : isdigit d0 = true) by (unfold all in Hd; simpl in Hd; apply andb_true_iff in Hd; tauto).
+  assert (T : trim s = sg ++ d0 :: dr).
+  { subst s. destruct Hs as [-> | [-> | ->]]; simpl app.
+    - apply (trim_core w1 w2 d0 dr m y); try assumption.
+      + apply digit_not_space; exact Hd0.
+      + apply digit_not_space; exact Hy.
+    - change (w1 ++ 43 :: d0 :: dr ++ w2) with (w1 ++ (43 :: d0 :: dr) ++ w2).
+      apply (trim_core w1 w2 43 (d0 :: dr) (43 :: m) y); try assumption; try reflexivity.
+      + rewrite Ey. reflexivity.
+      + apply digit_not_space; exact Hy.
+    - change (w1 ++ 45 :: d0 :: dr ++ w2) with (w1 ++ (45 :: d0 :: dr) ++ w2).
+      apply (trim_core w1 w2 45 (d0 :: dr) (45 :: m) y); try assumption; try reflexivity.
+      + rewrite Ey. reflexivity.
+      + apply digit_not_space; exact Hy. }
+  unfold is_integer. rewrite T.
+  assert (Hnd : is_sign d0 = false).
+  { unfold isdigit in Hd0. apply andb_true_iff in Hd0. destruct Hd0 as [A B]. apply N.leb_le in A.
+    unfold is_sign. destruct (d0 =? 43) eqn:E1; [apply N.eqb_eq in E1; lia|]. destruct (d0 =? 45) eqn:E2; [apply N.eqb_eq in E2; lia|]. reflexivity. }
+  destruct Hs as [-> | [-> | ->]]; simpl.
+  - rewrite Hnd. simpl. exact Hd.
+  - exact Hd.
+  - exact Hd.
+Qed.
+
+Theorem is_integer_spec s : is_integer s = true <-> integer_literal s.
+Proof. split; [apply is_integer_sound | apply is_integer_complete]. Qed.
+
+(* soundness of IsFloat: whatever it accepts is a documented floating-point literal *)
+Lemma is_nil_false {A} (l : list A) : negb (is_nil l) = true -> l <> [].
+Proof. destruct l; simpl; [discriminate | discriminate]. Qed.
+
+Theorem is_float_sound s : is_float s = true -> float_literal s.
+Proof.
+  unfold is_float. intro H. destruct (trim_decomp s) as (w1 & w2 & E & H1 & H2).
+  destruct (trim s) as [|c0 t0] eqn:T; [discriminate|].
+  destruct (skip_sign_decomp (c0 :: t0)) as (sg & Es & Hs).
+  set (t1 := skip_sign (c0 :: t0)) in *.
+  pose proof (take_drop isdigit t1) as E1.
+  set (d1 := takew isdigit t1) in *. set (t2 := dropw isdigit t1) in *.
+  assert (Edot : exists dot, t2 = dot ++ match t2 with 46 :: r => r | _ => t2 end /\ opt_dot dot).
+  { destruct t2 as [|c r]; [exists []; split; [reflexivity | left; reflexivity]|].
+    destruct (N.eq_dec c 46) as [->|N]; [exists [46]; split; [reflexivity | right; reflexivity]|].
+    exists []. split; [|left; reflexivity].
+    destruct c as [|p]; [reflexivity|]. do 6 (destruct p as [p|p|]; try reflexivity). all: try (exfalso; apply N; reflexivity). }
+  destruct Edot as (dot & Ed & Hdot).
+  set (t3 := match t2 with 46 :: r => r | _ => t2 end) in *.
+  pose proof (take_drop isdigit t3) as E3.
+  set (d2 := takew isdigit t3) in *. set (t4 := dropw isdigit t3) in *.
+  assert (Hex : exponent t4 /\ (d1 <> [] \/ d2 <> [])).
+  { destruct t4 as [|c r].
+    - split; [left; reflexivity|]. apply orb_true_iff in H. destruct H as [H|H]; [left | right]; apply is_nil_false; exact H.
+    - destruct (is_e c) eqn:Ee; [|discriminate]. destruct r as [|c1 r']; [discriminate|].
+      destruct (skip_sign_decomp (c1 :: r')) as (sg2 & Es2 & Hs2).
+      destruct (skip_sign (c1 :: r')) as [|c2 r2] eqn:R; [discriminate|].
+      apply andb_true_iff in H. destruct H as [Hd Hh]. split.
+      + right. exists c, sg2, (c2 :: r2). repeat split; try assumption.
+        * rewrite Es2 at 1. reflexivity.
+        * discriminate.
+      + apply orb_true_iff in Hh. destruct Hh as [Hh|Hh]; [left | right]; apply is_nil_false; exact Hh. }
+  destruct Hex as [Hex Hdig].
+  exists w1, sg, d1, dot, d2, t4, w2. repeat split; try assumption.
+  - rewrite E. f_equal. rewrite Es. rewrite <- app_assoc. f_equal.
+    rewrite E1 at 1. rewrite <- app_assoc. f_equal.
+    rewrite Ed at 1. rewrite <- app_assoc. f_equal.
+    change (t3 ++ w2 = d2 ++ t4 ++ w2). rewrite E3 at 1. rewrite <- app_assoc. reflexivity.
+  - apply takew_all.
+  - apply takew_all.
+Qed.
